@@ -18,7 +18,7 @@ import (
 func init() { register("C15", runC15) }
 
 const (
-	opSmall = iota
+	opSmall    = iota
 	opFill     // write up to exactly MaxLength
 	opOnePast  // write one byte more than fits
 	opByte     // WriteByte
